@@ -29,6 +29,18 @@ FUNCS = [
     dict(src="properties.py", qual="VariableByteIntegers.decode", name="vbiDecode",
          params=[("buffer", "Bytes")], fuel="(buffer.length + 1)", ret="(Int × Int)"),
 ]
+# loop-free functions whose state lives in attributes of `self`: `attrs` gives the Lean type of every attribute read or
+# written; the translated function takes the attributes it reads (in this order) before its parameters and returns
+# (result, attributes it writes) - the listed `writes` in that order
+STRAIGHT = [
+    dict(src="client.py", qual="Client._mid_generate", name="midGenerate", params=[],
+         attrs=[("_last_mid", "Int")], writes=["_last_mid"], ret="Int"),
+    dict(src="subscribeoptions.py", qual="SubscribeOptions.pack", name="subOptsPack", params=[],
+         attrs=[("QoS", "Int"), ("noLocal", "Bool"), ("retainAsPublished", "Bool"), ("retainHandling", "Int")], writes=[], ret="Bytes"),
+    dict(src="subscribeoptions.py", qual="SubscribeOptions.unpack", name="subOptsUnpack", params=[("buffer", "Bytes")],
+         attrs=[("QoS", "Int"), ("noLocal", "Bool"), ("retainAsPublished", "Bool"), ("retainHandling", "Int")],
+         writes=["QoS", "noLocal", "retainAsPublished", "retainHandling"], ret="Int"),
+]
 EXC = {"ValueError": ".valueError", "TypeError": ".typeError", "AssertionError": ".assertionError", "IndexError": ".indexError"}
 RESERVED = {"bytes": "bytes_", "end": "end_", "from": "from_", "at": "at_", "open": "open_"}
 
@@ -42,6 +54,7 @@ class Tr:
         self.cfg = cfg
         self.fn = fn
         self.types = dict(cfg["params"])     # python name -> Lean type
+        self.ret_suffix = None                # straight-line functions: the written attributes returned with the result
 
     # ---------------------------------------------------------------- expressions: returns (lean text, type)
     def expr(self, e):
@@ -57,6 +70,29 @@ class Tr:
             if e.id not in self.types:
                 raise Missing(f"unknown name {e.id}")
             return lname(e.id), self.types[e.id]
+        if isinstance(e, ast.Attribute) and isinstance(e.value, ast.Name) and e.value.id == "self":
+            key = "self." + e.attr
+            if key not in self.types:
+                raise Missing(f"unknown attribute {key}")
+            return "self_" + e.attr.lstrip("_"), self.types[key]
+        if isinstance(e, ast.IfExp):
+            c = self.test(e.test)
+            a, ta = self.expr(e.body)
+            b, tb = self.expr(e.orelse)
+            if ta != tb:
+                raise Missing("conditional expression with branches of different types")
+            return f"(if {c} then {a} else {b})", ta
+        if isinstance(e, ast.List) and e.elts:
+            vs = [self.expr(v) for v in e.elts]
+            if any(t != "Int" for _, t in vs):
+                raise Missing("list literal of non-ints")
+            return "[" + ", ".join(v for v, _ in vs) + "]", "List Int"
+        if isinstance(e, ast.BinOp) and isinstance(e.op, (ast.LShift, ast.RShift)):
+            a, ta = self.expr(e.left)
+            if ta != "Int" or not (isinstance(e.right, ast.Constant) and isinstance(e.right.value, int) and 0 <= e.right.value < 64):
+                raise Missing("shift of a non-int or by a non-literal")
+            # on a non-negative int `<< k` is `* 2^k` and `>> k` is `// 2^k`; a negative operand is not modelled
+            return f"(← Py.{'shl' if isinstance(e.op, ast.LShift) else 'shr'} {a} {e.right.value})", "Int"
         if isinstance(e, ast.BinOp):
             a, ta = self.expr(e.left)
             b, tb = self.expr(e.right)
@@ -74,6 +110,13 @@ class Tr:
             if op is None:
                 raise Missing(f"operator {type(e.op).__name__}")
             return f"({a} {op} {b})", "Int"
+        if isinstance(e, ast.Compare) and len(e.ops) == 1 and isinstance(e.ops[0], (ast.In, ast.NotIn)) \
+                and isinstance(e.comparators[0], ast.Tuple) and all(isinstance(x, ast.Constant) and isinstance(x.value, int) for x in e.comparators[0].elts):
+            a, ta = self.expr(e.left)
+            if ta != "Int":
+                raise Missing("membership test on a non-int")
+            mem = "(" + " || ".join(f"({a} == ({x.value} : Int))" for x in e.comparators[0].elts) + ")"
+            return (mem if isinstance(e.ops[0], ast.In) else f"(!{mem})"), "Bool"
         if isinstance(e, ast.Compare):
             parts = []
             left = e.left
@@ -101,6 +144,9 @@ class Tr:
         if isinstance(e, ast.Call) and isinstance(e.func, ast.Name) and e.func.id == "len" and len(e.args) == 1:
             v, t = self.expr(e.args[0])
             return f"(({v}).length : Int)", "Int"
+        if isinstance(e, ast.Call) and isinstance(e.func, ast.Name) and e.func.id == "bytes" and len(e.args) == 1 \
+                and isinstance(e.args[0], ast.Name) and self.types.get(e.args[0].id) == "List Int":
+            return f"(← ({lname(e.args[0].id)}).mapM Py.byteOf)", "Bytes"
         if isinstance(e, ast.Call) and isinstance(e.func, ast.Name) and e.func.id == "bytes" and len(e.args) == 1 \
                 and isinstance(e.args[0], ast.List) and len(e.args[0].elts) == 1:
             v, t = self.expr(e.args[0].elts[0])
@@ -162,6 +208,20 @@ class Tr:
                 else:
                     self.types[n] = t
                     out.append(f"{pad}let mut {lname(n)} : {t} := {v}")
+            elif isinstance(s, ast.Assign) and len(s.targets) == 1 and isinstance(s.targets[0], ast.Attribute) \
+                    and isinstance(s.targets[0].value, ast.Name) and s.targets[0].value.id == "self":
+                key = "self." + s.targets[0].attr
+                v, t = self.expr(s.value)
+                if self.types.get(key) != t:
+                    raise Missing(f"{key} assigned a {t}")
+                out.append(f"{pad}self_{s.targets[0].attr.lstrip('_')} := {v}")
+            elif isinstance(s, ast.AugAssign) and isinstance(s.target, ast.Attribute) and isinstance(s.target.value, ast.Name) \
+                    and s.target.value.id == "self":
+                v, t = self.expr(ast.BinOp(left=s.target, op=s.op, right=s.value))
+                out.append(f"{pad}self_{s.target.attr.lstrip('_')} := {v}")
+            elif isinstance(s, ast.With) and len(s.items) == 1 and isinstance(s.items[0].context_expr, ast.Attribute) \
+                    and s.items[0].context_expr.attr.endswith("_mutex") and s.items[0].optional_vars is None:
+                out += self.stmts(s.body, ind, ctl)
             elif isinstance(s, ast.AugAssign) and isinstance(s.target, ast.Name):
                 v, t = self.expr(ast.BinOp(left=ast.Name(id=s.target.id, ctx=ast.Load()), op=s.op, right=s.value))
                 out.append(f"{pad}{lname(s.target.id)} := {v}")
@@ -188,6 +248,8 @@ class Tr:
                 out.append(f"{pad}throw Exc{EXC[nm]}")
             elif isinstance(s, ast.Return):
                 v, t = self.expr(s.value)
+                if self.ret_suffix is not None:
+                    v = "(" + ", ".join([v] + self.ret_suffix) + ")"
                 out.append(f"{pad}return " + (f"Py.Ctl.ret {v}" if ctl else v))
             elif isinstance(s, ast.Break):
                 if not ctl:
@@ -257,6 +319,29 @@ class Tr:
         return "\n".join(L)
 
 
+    def translate_straight(self):
+        cfg, fn = self.cfg, self.fn
+        for a, t in cfg["attrs"]:
+            self.types["self." + a] = t
+        if any(isinstance(n, (ast.While, ast.For)) for n in ast.walk(fn)):
+            raise Missing("loop in a function configured as loop-free")
+        self.ret_suffix = ["self_" + a.lstrip("_") for a in cfg["writes"]]
+        body = self.stmts(fn.body, 1, None)
+        params = " ".join([f"(self_{a.lstrip('_')} : {t})" for a, t in cfg["attrs"]] + [f"({lname(n)} : {t})" for n, t in cfg["params"]])
+        rtype = "(" + " × ".join([cfg["ret"]] + [dict(cfg["attrs"])[a] for a in cfg["writes"]]) + ")" if cfg["writes"] else cfg["ret"]
+        where = f"{cfg['src']} {cfg['qual']} (line {fn.lineno})"
+        L = [f"/-- {where}; attributes of `self` read: {', '.join(a for a, _ in cfg['attrs'])}; returned with the result: {', '.join(cfg['writes']) or 'none'} -/",
+             f"def {cfg['name']} {params} : Except Exc {rtype} := do"]
+        for a, _ in cfg["attrs"]:
+            L.append(f"  let mut self_{a.lstrip('_')} := self_{a.lstrip('_')}")
+        for n, _ in cfg["params"]:
+            L.append(f"  let mut {lname(n)} := {lname(n)}")
+        L += body
+        if not (fn.body and isinstance(fn.body[-1], ast.Return)) and not any(isinstance(n, ast.Return) for n in ast.walk(fn.body[-1])):
+            raise Missing("function may fall off its end")
+        return "\n".join(L)
+
+
 def find_func(tree, qual):
     body = tree.body
     node = None
@@ -276,6 +361,17 @@ def run(out):
             tree = ast.parse(open(os.path.join(PKG, cfg["src"]), encoding="utf-8").read())
             fn = find_func(tree, cfg["qual"])
             texts.append(Tr(cfg, fn).translate())
+            out.report["anchors"]["fn:" + cfg["name"]] = {"value": "translated", "where": f"{cfg['src']} {cfg['qual']}"}
+        except Missing as e:
+            texts.append(f"-- MISSING translation {cfg['name']}: {e}")
+            out.report["missing"].append({"name": "fn:" + cfg["name"], "why": f"not translatable: {e}", "file": "Fn"})
+        except (OSError, SyntaxError) as e:
+            out.report["missing"].append({"name": "fn:" + cfg["name"], "why": f"cannot parse: {e}", "file": "Fn"})
+    for cfg in STRAIGHT:
+        try:
+            tree = ast.parse(open(os.path.join(PKG, cfg["src"]), encoding="utf-8").read())
+            fn = find_func(tree, cfg["qual"])
+            texts.append(Tr(cfg, fn).translate_straight())
             out.report["anchors"]["fn:" + cfg["name"]] = {"value": "translated", "where": f"{cfg['src']} {cfg['qual']}"}
         except Missing as e:
             texts.append(f"-- MISSING translation {cfg['name']}: {e}")
